@@ -82,6 +82,8 @@ fn dispatch(line: &str) -> PResult<String> {
         "wr" => by_fam!(t, op_wr),
         "errconv" => op_errconv(t),
         "cross" => op_cross(t),
+        "big" => op_big(t),
+        "kf1" => op_kf1(t),
         "" => Err("empty-line".to_owned()),
         _ => Err("unknown-op".to_owned()),
     }
@@ -1371,5 +1373,96 @@ fn op_cross(t: &mut Toks) -> PResult<String> {
     }
     out.push_str(";rused=");
     tok::num(&mut out, rused as u64);
+    Ok(out)
+}
+
+
+// ---------------------------------------------------------------- shape-only ops (C02)
+
+fn big_fields<T, E>(
+    out: &mut String,
+    len: Result<Result<usize, E>, Panicked>,
+    enc: Result<Result<T, mqtt_proto::Error>, Panicked>,
+    size: impl Fn(&T) -> usize,
+    perr: impl Fn(&mut String, &E),
+) {
+    out.push_str("len=");
+    res_simple(out, &len, |o, v| tok::num(o, *v as u64), |o, e| perr(o, e));
+    out.push_str(";enc=");
+    res_simple(
+        out,
+        &enc,
+        |o, v| tok::num(o, size(v) as u64),
+        |o, e| cm::print_err(o, e),
+    );
+}
+
+/// `big FAM publish TOPICLEN QOS PAYLOADLEN`: a PUBLISH given by field lengths only.
+/// -> len=RES(NUM);enc=RES(NUM bytes produced)
+fn op_big(t: &mut Toks) -> PResult<String> {
+    let v5 = t.fam_is_v5()?;
+    let kind = t.next()?;
+    if kind != "publish" {
+        return Err("big-kind".to_owned());
+    }
+    let tl = t.num()? as usize;
+    let q = t.num()?;
+    let pl = t.num()? as usize;
+    t.done()?;
+    if tl > 65535 || pl > (1usize << 30) {
+        return Err("big-size".to_owned());
+    }
+    let topic = mqtt_proto::TopicName::try_from("a".repeat(tl)).map_err(|_| "topic".to_owned())?;
+    let pid = mqtt_proto::Pid::try_from(7u16).unwrap();
+    let qp = match q {
+        0 => mqtt_proto::QosPid::Level0,
+        1 => mqtt_proto::QosPid::Level1(pid),
+        2 => mqtt_proto::QosPid::Level2(pid),
+        _ => return Err("qos".to_owned()),
+    };
+    let payload = bytes::Bytes::from(vec![0u8; pl]);
+    let mut out = String::new();
+    if v5 {
+        let p = mqtt_proto::v5::Packet::Publish(mqtt_proto::v5::Publish::new(qp, topic, payload));
+        let len = guard(|| p.encode_len());
+        let enc = guard(|| p.encode());
+        big_fields(&mut out, len, enc, |v| v.as_ref().len(), |o, e| pk5::print_err(o, e));
+    } else {
+        let p = mqtt_proto::v3::Packet::Publish(mqtt_proto::v3::Publish::new(qp, topic, payload));
+        let len = guard(|| p.encode_len());
+        let enc = guard(|| p.encode());
+        big_fields(&mut out, len, enc, |v| v.as_ref().len(), |o, e| cm::print_err(o, e));
+    }
+    Ok(out)
+}
+
+/// `kf1 N`: v5 Puback with N user properties sharing one 65535-byte Arc<String> as name and value.
+/// -> len=RES(NUM);enc=RES(NUM)
+fn op_kf1(t: &mut Toks) -> PResult<String> {
+    let n = t.num()? as usize;
+    t.done()?;
+    if n > 5000 {
+        return Err("kf1-size".to_owned());
+    }
+    let s = std::sync::Arc::new("a".repeat(65535));
+    let up = mqtt_proto::v5::UserProperty {
+        name: s.clone(),
+        value: s,
+    };
+    let mut pa = mqtt_proto::v5::Puback::new(
+        mqtt_proto::Pid::try_from(1u16).unwrap(),
+        mqtt_proto::v5::PubackReasonCode::UnspecifiedError,
+    );
+    pa.properties.user_properties = vec![up; n];
+    let p = mqtt_proto::v5::Packet::Puback(pa);
+    let len = guard(|| p.encode_len());
+    let mut out = String::new();
+    // encode() of a 275 MB property section is only attempted when encode_len did not panic
+    let enc = if len.is_err() {
+        guard(|| -> Result<mqtt_proto::VarBytes, mqtt_proto::Error> { panic!("skipped") })
+    } else {
+        guard(|| p.encode())
+    };
+    big_fields(&mut out, len, enc, |v| v.as_ref().len(), |o, e| pk5::print_err(o, e));
     Ok(out)
 }
